@@ -274,16 +274,23 @@ func registryFaultCase(c *kit.Case) {
 			}
 			done <- ok
 		}()
-		h.note("load-error", "SUBSCRIBE S0 %s; the first Get is refused, PUT %s=%s while go-zero waits to retry, the second Get is served", modeName, late.k, late.v)
-		s := h.addSub("S0", excl, false, 1)
+		h.note("load-error", "the first Get of the next subscriber is refused, PUT %s=%s while go-zero waits to retry", late.k, late.v)
+		// by hand: NewSubscriber returns when its load is over - whether a Get was served for
+		// it by then ("the load was retried") is observed, not assumed
+		gs0, _, _ := h.f.totals()
+		subscribeByHand(c, h, g, "load-error-initial", "created while the first Get of its load was refused", nil)
 		if !<-done {
 			h.inconclusive("watchdog: go-zero made no Get")
 			break
 		}
-		if s.sub != nil && h.f.getsRefused() >= 1 {
+		if gs1, _, _ := h.f.totals(); gs1 > gs0 && h.f.getsRefused() >= 1 {
 			c.Obs("loads_retried_after_get_error", 1)
 		}
-		h.sync()
+		if h.dead {
+			break
+		}
+		// the hand-made subscriber is closed again; an ordinary history on the same key follows
+		subscribe("S0")
 		someOps(r.Range(1, 4))
 		h.reload(r.Intn(4), r.Range(0, 3), g.anyOp)
 
@@ -297,7 +304,16 @@ func registryFaultCase(c *kit.Case) {
 		h.f.scriptGetFailures(1)
 		kind := []int{rlCompactBreak, rlCompactLive}[r.Intn(2)]
 		h.log = append(h.log, "(the next Get is refused once: the snapshot load has to be retried)")
-		h.reload(kind, r.Range(1, 3), g.anyOp)
+		// the first operation missed during the partition registers a new key with a value
+		// of its own, so that a reload that does not happen cannot go unnoticed
+		first := true
+		h.reload(kind, r.Range(1, 3), func() op {
+			if first {
+				first = false
+				return op{k: fmt.Sprintf("svc/%d", 7587848943834334901), v: "10.0.7.98:8080"}
+			}
+			return g.anyOp()
+		})
 		if g1, _ := h.f.calls(h.subs[0].fk); !h.dead && h.f.getsRefused() >= 1 && g1 > g0 {
 			c.Obs("loads_retried_after_get_error", 1)
 		}
